@@ -50,9 +50,12 @@ def short_extra(rng, rec):
     r = rng.random()
     page = rng.choice([gen.num(rng), "xii", "___", "iv", gen.num(rng)])
     tail = rng.choice([" because", ".", ", 7.", " (noting x).", " and", "; see", " n.3", "-" + gen.num(rng) + ".", ")"])
-    if r < 0.25:
-        # short form of ANY pattern of the database (pages with commas, periods, letters, ...)
+    if r < 0.12:
+        # short form of ANY pattern of the database
         return f"{gen.name(rng)}, {gen.member(rng, short=True)}{tail}"
+    if r < 0.25:
+        # ... and of the patterns whose page may contain punctuation ('BCA at 12,345 and')
+        return f"{gen.name(rng)}, {gen.punct_page_member(rng, short=True)}{tail}"
     if r < 0.5:
         return f"{gen.name(rng)}, {gen.num(rng)} {gen.rep(rng)} at {page}{tail}"
     if r < 0.7:
